@@ -52,6 +52,7 @@ struct VecWorld : World {
         if (c14 && op.k == V_ADD && r.chance(1, 10)) op.d |= NULLDATA;
         return op;
     }
+    bool result_is_ambiguous(const Op &op) const override { return op.k == V_REVERSE || op.k == V_CLEAR; }
     bool is_mutation(const Op &op) const override { return op.k == V_ADD || op.k == V_SET || op.k == V_POP || op.k == V_REMOVE || op.k == V_REVERSE || op.k == V_RESIZE || op.k == V_CLEAR || op.k == V_WALKSHRINK; }
 
     void init(const Cfg &c) override { cfg = c; es = (int)c.get("es", 4); initmax = (int)c.get("initmax"); policy = (int)c.get("policy"); threadsafe = c.get("ts") != 0; mt = c.get("mt") != 0; }
@@ -127,10 +128,8 @@ struct VecWorld : World {
             return ok ? R_ok() : R_fail();
         }
         case V_REVERSE: {
-            // reverse() returns nothing: errno is its only way to report that it could not allocate its scratch element
-            int e;
-            { InSut s; errno = 0; q->reverse(q); e = errno; }
-            if (sim_fault_fired() > 0 && e == ENOMEM) return R_fail("enomem");
+            // reverse() returns nothing: whether it completed or gave up under an allocation failure is read from the contents
+            { InSut s; q->reverse(q); }
             return R_ok();
         }
         case V_RESIZE: {
@@ -156,7 +155,7 @@ struct VecWorld : World {
             Bytes out; size_t cnt = 0, guard = q->size(q) * 2 + 8; bool failed = false; int fired_seen = sim_fault_fired(), retries = 0;
             for (;;) {
                 bool more; { InSut s; more = q->getnext(q, &o, newmem); }
-                if (!more && newmem && sim_fault_fired() > fired_seen && retries < 1) { fired_seen = sim_fault_fired(); retries++; x.st.add("probe.walk_step_retried_after_enomem"); continue; }
+                if (!more && newmem && sim_fault_fired() > fired_seen && retries < 1) { fired_seen = sim_fault_fired(); retries++; failed = true; x.st.add("probe.walk_step_retried_after_enomem"); continue; }   // a step reported failure: so does the walk (the retry only probes that the cursor is still safe to use)
                 if (!more) { if (sim_fault_fired() > fired_seen) failed = true; break; }
                 Bytes e((const char *)o.data, (size_t)es);
                 if (newmem) x.hold(o.data, e, "vector.getnext(newmem)");
